@@ -49,6 +49,9 @@ def hd_mbr(part_type=0x0c, sectors=2048, bootable=True):
     return bytes(446) + part + bytes(48) + b'\x55\xaa'
 
 
+NAMELESS_SIG = 'C11.gen2/nameless-boot-image-size-differs-from-load-size'
+
+
 def make_boot(rng, i):
     """(content bytes, add_eltorito kwargs, expectation dict)"""
     kind = rng.choice(['noemul', 'noemul', 'noemul', 'floppy', 'hdemul'])
@@ -211,9 +214,19 @@ def scenario(ctx, rng, tmpdir):
             except Exception as e:  # noqa
                 viol('C11.hide-boot-raises', 'set_hidden on the boot file raised %r' % e)
         unlinked = set()
+        iso_only = None
         gone_paths = set()
         r = rng.random()
         # one boot file, or every boot file (several inodes released by rm_eltorito), loses all its names
+        if 0.4 <= r < 0.55 and (cfg.get('joliet') or cfg.get('udf')):
+            # only the ISO9660 name goes: the content keeps its Joliet / UDF names and its catalog entry
+            b = rng.choice(boots)
+            if 'iso_path' in b['names'] and not b.get('shared'):
+                try:
+                    iso.rm_hard_link(iso_path=b['names']['iso_path'])
+                    iso_only = b['name']
+                except Exception as e:  # noqa
+                    viol('C11.unlink-boot-raises/%s' % isoapi.exc_class(e), 'rm_hard_link of the ISO9660 name of the boot file raised %r' % e)
         for b in ([rng.choice(boots)] if r < 0.25 else boots if r < 0.4 else []):
             try:
                 for key, val in b['names'].items():
@@ -272,7 +285,7 @@ def scenario(ctx, rng, tmpdir):
             if stored != expect:
                 viol('C11.load-rba', 'entry for %s: load address %d does not hold the boot file bytes' % (b['name'], rba))
         # read back through the API (own parser) under each remaining name
-        if b['name'] not in unlinked:
+        if b['name'] not in unlinked and b['name'] != iso_only:
             iso2 = pycdlib.PyCdlib()
             try:
                 iso2.open(path)
@@ -291,6 +304,65 @@ def scenario(ctx, rng, tmpdir):
                 viol('C11.catalog-file/%s' % f[0], 'catalog name %s points at sector %s (catalog is at %d)' % (ent[:60], f[5], catsec))
     ctx.count(key=scenario.seed, nontrivial=True, kind='boots=%d' % len(boots),
               sample={'cfg': cfg, 'boots': [{'name': b['name'], 'len': len(b['data']), 'kw': b['kw']} for b in boots][:3], 'hidden': hidden, 'unlinked': sorted(unlinked)})
+    # second generation: the bootable image is opened again and edited; the boot data must survive an unrelated edit
+    # (entries keep pointing at their boot files, nothing overlaps, hidden boot files keep exactly one copy)
+    # recorded finding: a boot image that lost all its names is known to a reopened image only through its catalog entry,
+    # i.e. through the number of 512-byte sectors the firmware loads; whatever lies beyond that is dropped on the next
+    # write while the volume size still counts it (and a load size larger than the file makes the image grow beyond the
+    # declared size).  Problems of generation 2 in exactly that situation carry the tag.
+    short = [b['name'] for b in boots if b['name'] in unlinked and b['kw'].get('media_name') != 'floppy'
+             and (b['exp']['count'] * 512 < len(b['data']) or -(-b['exp']['count'] * 512 // 2048) > -(-len(b['data']) // 2048))]
+    def gviol(code, msg):
+        if short:
+            viol(NAMELESS_SIG, '%s [%s; nameless boot images %s]' % (msg, code, short))
+        else:
+            viol('C11.gen2/%s' % code, msg)
+    with isoapi.frozen_time():
+        g2 = pycdlib.PyCdlib()
+        try:
+            g2.open(path)
+            kw = {'iso_path': '/ZZGEN2.;1'}
+            if cfg.get('rr'):
+                kw['rr_name'] = 'zzgen2'
+            if cfg.get('joliet'):
+                kw['joliet_path'] = '/zzgen2'
+            if cfg.get('udf'):
+                kw['udf_path'] = '/zzgen2'
+            g2.add_fp(io.BytesIO(b'second generation'), 17, **kw)
+            pg = os.path.join(tmpdir, 'g%d.iso' % rng.randrange(10 ** 12))
+            g2.write(pg)
+            g2.close()
+            repg = isoapi.read_image(ctx, pg)
+            imgg = open(pg, 'rb').read()
+            os.unlink(pg)
+            for e in repg.errs:
+                if not e.startswith('unsorted-ecma') and histcheck.owns(e.split(':')[0], histcheck.BOOT_CODES + histcheck.ECMA_CODES):
+                    gviol('reader-%s' % e.split(':')[0], 'after reopening and adding a file: %s' % e[:120])
+            for code, detail in isoapi.check_allocs(repg):
+                gviol('alloc-%s' % code, 'after reopening and adding a file: %s' % detail)
+            bg = [x for x in repg.entries if x.startswith('B:')]
+            if len(bg) != len(bents):
+                gviol('entry-count', 'catalog has %d entries after reopen + edit, %d before' % (len(bg), len(bents)))
+            for b, ent in zip(boots, bg):
+                f = dict((x[:x.index('=')] if '=' in x else x, x[x.index('=') + 1:] if '=' in x else '') for x in ent.split(':')[1:]) if False else None
+                flds = ent.split(':')
+                rba2 = int([x for x in flds if x.startswith('rba')][0][3:])
+                data = b['data']
+                if b['name'] in unlinked and b['kw'].get('media_name') != 'floppy':
+                    # a boot image without any name is known to a reopened image only through its entry: the bytes the
+                    # entry's sector count covers must survive (a floppy image always has the size of its media; the size
+                    # of a hard-disk image is a property of its own partition table, which the catalog does not record)
+                    cnt = int([x for x in flds if x.startswith('cnt')][0][3:])
+                    data = data[:cnt * 512]
+                stored = imgg[rba2 * 2048: rba2 * 2048 + len(data)]
+                if stored[:8] != data[:8] or stored[64:] != data[64:]:
+                    gviol('load-rba', 'after reopening and adding a file the entry for %s points at sector %d, which does not hold the boot file' % (b['name'], rba2))
+        except Exception as e:  # noqa
+            gviol('raises-%s' % isoapi.exc_class(e), 'reopening the bootable image and adding a file raised %r (hidden=%s unlinked=%s)' % (e, hidden, sorted(unlinked)))
+            try:
+                g2.close()
+            except Exception:
+                pass
     os.unlink(path)
     # rm_eltorito removes all of this and nothing else
     with isoapi.frozen_time():
@@ -356,8 +428,92 @@ def run_fn(ctx):
     iso.close()
 
 
+def probe_nameless(ctx):
+    """the recorded finding, deterministically: a boot file of 5000 bytes loaded with 4 sectors loses its name; the image
+    is written, opened, edited and written again"""
+    import pycdlib
+    tmpdir = tempfile.mkdtemp(prefix='verif-c11p-')
+    try:
+        with isoapi.frozen_time():
+            iso = pycdlib.PyCdlib()
+            iso.new(interchange_level=3)
+            iso.add_fp(io.BytesIO(b'\x07' * 5000), 5000, '/B0.;1')
+            iso.add_eltorito('/B0.;1', boot_load_size=4)
+            iso.rm_hard_link(iso_path='/B0.;1')
+            out = io.BytesIO()
+            iso.write_fp(out)
+            iso.close()
+            g = pycdlib.PyCdlib()
+            g.open_fp(io.BytesIO(out.getvalue()))
+            g.add_fp(io.BytesIO(b'x' * 10), 10, '/Z.;1')
+            p = os.path.join(tmpdir, 'p.iso')
+            g.write(p)
+            g.close()
+        rep = isoapi.read_image(ctx, p)
+        data = open(p, 'rb').read()
+        ctx.count(key='probe-nameless', nontrivial=True, kind='probe:nameless-boot-image')
+        bad = [d for c, d in isoapi.check_allocs(rep)]
+        rba = [int([x for x in e.split(':') if x.startswith('rba')][0][3:]) for e in rep.entries if e.startswith('B:')]
+        kept = data[rba[0] * 2048: rba[0] * 2048 + 5000] == b'\x07' * 5000 if rba else False
+        if bad or not kept:
+            ctx.violation(NAMELESS_SIG, 'boot file of 5000 bytes, load size 4 sectors, no name left: after open + add_fp + write %s%s' % (
+                'the image keeps only the loaded sectors of it' if not kept else '', ('; ' + bad[0]) if bad else ''), {'kind': 'probe-nameless'})
+    finally:
+        shutil.rmtree(tmpdir, ignore_errors=True)
+
+
+def probe_shared_hidden(ctx):
+    """two catalog entries (BIOS and UEFI) for one boot file of exactly its load size; the file loses its names; the image
+    is written, opened, edited and written again: one copy of the content, both entries on it, sound allocation"""
+    import pycdlib
+    tmpdir = tempfile.mkdtemp(prefix='verif-c11q-')
+    try:
+        for cfgkw in ({}, {'joliet': 3}, {'udf': '2.60'}):
+            with isoapi.frozen_time():
+                iso = pycdlib.PyCdlib()
+                iso.new(interchange_level=3, **cfgkw)
+                names = {'iso_path': '/B0.;1'}
+                if 'joliet' in cfgkw:
+                    names['joliet_path'] = '/b0'
+                if 'udf' in cfgkw:
+                    names['udf_path'] = '/b0'
+                iso.add_fp(io.BytesIO(b'\x09' * 4096), 4096, **names)
+                iso.add_eltorito('/B0.;1')
+                iso.add_eltorito('/B0.;1', efi=True)
+                for k, v in names.items():
+                    iso.rm_hard_link(**{k: v})
+                out = io.BytesIO()
+                iso.write_fp(out)
+                iso.close()
+                g = pycdlib.PyCdlib()
+                rp = {'kind': 'probe-shared-hidden'}
+                try:
+                    g.open_fp(io.BytesIO(out.getvalue()))
+                    g.add_fp(io.BytesIO(b'x' * 10), 10, '/Z.;1')
+                    p = os.path.join(tmpdir, 'q.iso')
+                    g.write(p)
+                    g.close()
+                except Exception as e:  # noqa
+                    ctx.violation('C11.gen2/shared-hidden/raises-%s' % isoapi.exc_class(e), 'two entries on one nameless boot file (%s): open + add_fp + write raised %r' % (cfgkw, e), rp)
+                    continue
+            rep = isoapi.read_image(ctx, p)
+            data = open(p, 'rb').read()
+            ctx.count(key=('probe-shared-hidden', repr(cfgkw)), nontrivial=True, kind='probe:shared-hidden-boot-image')
+            for c, d in isoapi.check_allocs(rep):
+                ctx.violation('C11.gen2/shared-hidden/alloc-%s' % c, 'two entries on one nameless boot file (%s): %s' % (cfgkw, d), rp)
+            rbas = [int([x for x in e.split(':') if x.startswith('rba')][0][3:]) for e in rep.entries if e.startswith('B:')]
+            if len(rbas) != 2 or len(set(rbas)) != 1 or data[rbas[0] * 2048: rbas[0] * 2048 + 4096] != b'\x09' * 4096:
+                ctx.violation('C11.gen2/shared-hidden/load-rba', 'two entries on one nameless boot file (%s): load addresses %s after open + edit + write' % (cfgkw, rbas), rp)
+            if data.count(b'\x09' * 4096) != 1:
+                ctx.violation('C11.gen2/shared-hidden/stored-twice', 'the shared boot content is stored %d times after open + edit + write (%s)' % (data.count(b'\x09' * 4096), cfgkw), rp)
+    finally:
+        shutil.rmtree(tmpdir, ignore_errors=True)
+
+
 def run(ctx):
     run_fn(ctx)
+    probe_nameless(ctx)
+    probe_shared_hidden(ctx)
     tmpdir = tempfile.mkdtemp(prefix='verif-c11-')
     try:
         for _ in range(60 if ctx.quick else 1500):
@@ -373,7 +529,11 @@ def replay(ctx, obj):
     r = obj.get('replay', obj)
     tmpdir = tempfile.mkdtemp(prefix='verif-c11-')
     try:
-        if r.get('kind') == 'scenario':
+        if r.get('kind') == 'probe-nameless':
+            probe_nameless(ctx)
+        elif r.get('kind') == 'probe-shared-hidden':
+            probe_shared_hidden(ctx)
+        elif r.get('kind') == 'scenario':
             scenario.seed = r['seed']
             scenario(ctx, random.Random(r['seed']), tmpdir)
         else:
